@@ -95,7 +95,7 @@ example : Dsf.delete (Dsf.exampleLayout.render.take 40 ++ [2] ++ Dsf.exampleLayo
 
 /-- ID3v2.5 at the pointer: save refuses (ID3UnsupportedVersionError); load goes looking for ID3v1 -/
 example : Dsf.saveX (Dsf.exampleLayout.render.take 97 ++ [5] ++ Dsf.exampleLayout.render.drop 98) 4 [] (fun _ _ => 0) = .error .mutagen ∧
-    Dsf.load (Dsf.exampleLayout.render.take 97 ++ [5] ++ Dsf.exampleLayout.render.drop 98) = .ok .searchV1 := by
+    Dsf.load (Dsf.exampleLayout.render.take 97 ++ [5] ++ Dsf.exampleLayout.render.drop 98) = .ok (.searchV1 true) := by
   decide +kernel
 
 /-- extended-header flag set, but the file ends inside the extended header (`read_full`: IOError → error) -/
